@@ -58,6 +58,11 @@ func checkC08(run *Run, res *Result) {
 			v := get(k)
 			switch {
 			case e.S2 == "0x23" && !v.awaiting:
+				if v.rolled || ready[e.M] {
+					res.probe("rollback-on-a-re-open")
+				}
+				// a new episode (seqnos above the rollback point now belong to another history)
+				v.emittedGtF, v.seenGtF, v.rolled, v.haveNew = map[uint64]bool{}, map[uint64]bool{}, false, false
 				v.f, v.r, v.awaiting = e.Off, e.U2, true
 				unopened[k] = e.N
 				res.probe("rollback-requested")
